@@ -30,7 +30,7 @@ RULE = (
     "wrapping. Non-trivial: a reconciliation with a colour or a non-plain name scheme; a word list that must be wrapped."
 )
 ASSUMPTIONS = ["the text is scanned, not typeset (no TeX engine)", "family names contain no backslash (a doubled backslash in a label is a line break)"]
-BUDGET = {"quick": 300, "thorough": 3000}
+BUDGET = {"quick": 900, "thorough": 3000}
 COL = {"r": "FF0000", "g": "FADBCE", "b": "0000FF"}   # "g": a hex colour without any decimal digit
 
 
